@@ -266,6 +266,14 @@ func genC14(r *Rng, e *Emitter, n int) {
 					b := [2]float64{cx + 10, cy + 20}
 					c := [2]float64{cx + 20, cy + 40}
 					rings = [][][2]float64{{a, b, c, a}}
+					// ... with interior rings that have no area either: every ring's length counts
+					for h := r.Intn(3); h > 0; h-- {
+						p0 := [2]float64{cx + float64(r.Intn(40)), cy + float64(r.Intn(80))}
+						p1 := [2]float64{p0[0] + float64(1+r.Intn(30)), p0[1] + float64(r.Intn(30))}
+						p2 := [2]float64{2*p1[0] - p0[0], 2*p1[1] - p0[1]}
+						rings = append(rings, [][2]float64{p0, p1, p2, p0})
+						e.tally("zero-area-hole")
+					}
 					e.tally("zero-area-polygon")
 				}
 				var flat []float64
